@@ -463,7 +463,7 @@ def write_replay(ctx, h, vals, tag):
         src = os.path.join(gen_dst, os.path.basename(h.src))
     inc = ["-I" + gen_dst] if os.path.isdir(gen_dst) else []
     cc = ["gcc", "-g", "-O0", "-w", "-std=gnu99", "-fsanitize=address,undefined",
-          "-fno-sanitize=signed-integer-overflow", "-fno-sanitize-recover=undefined",
+          "-fno-sanitize=signed-integer-overflow,alignment", "-fno-sanitize-recover=undefined",
           "-DVF_REPLAY=1"] + repo_defines() + h.defines + repo_includes() + inc + h.includes
     extra = [s if os.path.isabs(s) else os.path.join(REPO, s) for s in h.extra_srcs]
     with open(path, "w") as f:
